@@ -11,7 +11,7 @@ def region(r, low=False):
 
 def placement_suite(r, prefix, tier="quick"):
     """one history per kind of target placement: every arena mode that does not need the window reserved, plus the deterministic-trampoline ones"""
-    modes = ["page0"] * 3 + ["foreign_lo"] * 2 + ["packed"] * 3 + ["neigh"] * 2 + ["straddle"] * 2 + ["low"] * 2 + ["alias"] * 3 + ["hole_lo", "hole_hi", "hole", "edge"] + [f"align{k}" for k in (1, 2, 3, 5, 7, 8, 9, 13, 15)]
+    modes = ["cet"] * 3 + ["mass70", "fake31", "fake32", "fake32"] + ["page0"] * 3 + ["foreign_lo"] * 2 + ["packed"] * 3 + ["neigh"] * 2 + ["straddle"] * 2 + ["low"] * 2 + ["alias"] * 3 + ["hole_lo", "hole_hi", "hole", "edge"] + [f"align{k}" for k in (1, 2, 3, 5, 7, 8, 9, 13, 15)]
     if tier == "thorough": modes = modes * 8
     return [gen(r, f"{prefix}{i}", mode=m) for i, m in enumerate(modes)]
 
@@ -35,6 +35,39 @@ def gen(r, hid, mode=None, max_lifetimes=2):
         if mode == "packedbool": ops = [x for n in order[:2] for x in (f"I:{n}:bool:{r.randint(0, 1)}", "C:t0", "C:t1", "C:t2")] + [f"I:{order[0]}:bool:{r.randint(0, 1)}", "C:t0", "C:t1"]
         else: ops = [x for n in order[:2] for x in (f"I:{n}:{r.choice(['raw', 'clo'])}:{r.randint(0, 3)}", "C:t0", "C:t1", "C:t2")]
         lts = [ops]
+        return f"{hid} {','.join(decl + names + ['fk0', 'fk1', 'fk2', 'fk3'])} " + "|".join(",".join(o) for o in lts), lts
+    if mode == "cet":
+        # a function that begins with a CET landing pad (endbr64: C code built with -fcf-protection, a CET-enabled libc, hand-written assembly):
+        # faked, called, faked again, and a second lifetime; its neighbour is an ordinary function
+        B = region(r); off = r.choice([0, 16, 256, 1024, 4064, 4080, 4090]); t = B + off
+        decl = [f"A={B:x}/2", f"G={t:x}/1111", f"F={t + 16:x}/aaa1", f"G={t + 32:x}/aaa2", "S"]
+        names = [f"t0@{t:x}", f"n0@{t + 16:x}", f"n1@{t + 32:x}"]
+        k = r.choice(['raw', 'clo', 'fake', 'unc'])
+        ops = [f"I:t0:{k}:{r.randint(0, 3)}", "C:t0", "C:n1", f"I:t0:raw:{r.randint(0, 3)}", "C:t0"]
+        lts = [ops, [f"I:n1:{r.choice(['raw', 'clo'])}:{r.randint(0, 3)}", "C:n1", "C:t0"]]
+        return f"{hid} {','.join(decl + names + ['fk0', 'fk1', 'fk2', 'fk3'])} " + "|".join(",".join(o) for o in lts), lts
+    if mode.startswith("mass"):
+        # MANY fakes alive in one injector (mass70: 70, mass350: 350 functions at 16-byte pitch), with somebody else's code pages around the
+        # first pages the allocator can use: whatever the library keeps per injector or per process (lists, tables, pools) is taken beyond small sizes
+        n = int(mode[4:] or 70); B = region(r); pages = (16 * n) // PAGE + 2
+        decl = [f"A={B:x}/{pages}"] + [f"F={B + 16 * i:x}/{0x10000 + i:x}" for i in range(n)] + ["S", f"X={B - R:x}/3", f"XW={B - R + 4 * PAGE:x}/2", f"X={B - R + 6 * PAGE:x}/2"]
+        names = [f"t{i}@{B + 16 * i:x}" for i in range(n)]
+        ops = []
+        for i in range(n):
+            ops.append(f"I:t{i}:{'raw' if i % 5 else 'clo'}:{i % 4}")
+            if i % 64 == 63: ops.append(f"C:t{r.randrange(i)}")
+        ops += ["C:t0", f"C:t{n - 1}"]
+        lts = [ops, [f"I:t{r.randrange(n)}:raw:1", f"C:t{n // 2}"]]
+        return f"{hid} {','.join(decl + names + ['fk0', 'fk1', 'fk2', 'fk3'])} " + "|".join(",".join(o) for o in lts), lts
+    if mode in ("fake31", "fake32"):
+        # the replacement lives BELOW 4 GiB (a non-PIE executable, a JIT arena, MAP_32BIT memory): fake31 below 2 GiB, fake32 in [2 GiB, 4 GiB);
+        # the faked function is far away from it (long trampoline form)
+        B = region(r); t = B + r.choice([0, 16, 1024, 4064])
+        fb = (0x10000000 + r.randrange(0, 0x60000) * PAGE) if mode == "fake31" else (0x80000000 + r.randrange(0, 0x7fff0) * PAGE)
+        fake = fb + r.choice([0, 16, 0x800, 0xff0])
+        decl = [f"A={B:x}/2", f"F={t:x}/1111", f"F={t + 16:x}/aaa1", f"A={fb:x}/2", f"F={fake:x}/2222", "S"]
+        names = [f"t0@{t:x}", f"n0@{t + 16:x}", f"zf0@{fake:x}"]
+        lts = [["I:t0:rawat:zf0", "C:t0", "C:n0"], ["I:n0:rawat:zf0", "C:n0", "C:t0"]]
         return f"{hid} {','.join(decl + names + ['fk0', 'fk1', 'fk2', 'fk3'])} " + "|".join(",".join(o) for o in lts), lts
     if mode == "foreign_lo":
         # a page-aligned target whose first allocation hints (target - 128 MiB, page by page) point at pages that belong to somebody else
